@@ -67,6 +67,9 @@ func doDump(c *Ctx, what string) {
 		if os.Getenv("NOINLINE") != "" {
 			opts.Inline = func(*ssa.Function) bool { return false }
 		}
+		if os.Getenv("LOOP") != "" {
+			opts.LoopBound = 1
+		}
 		outs, abort := Enumerate(fn, opts)
 		for _, o := range outs {
 			b, _ := json.MarshalIndent(o.Summary(), "", " ")
